@@ -70,7 +70,8 @@ class C02(PropBase):
         g = Gen(rng, big=big, huge=huge, customs=customs)
         prep = []
         expected = []
-        own_enc = rng.random() < 0.3  # stream encoded by the independent encoder with 4-octet outer lengths
+        own_enc = rng.random() < 0.3  # stream encoded by the independent encoder (a foreign, conforming peer)
+        own_style = rng.choice([("outer4", None, None), ("outer4", None, None), ("ad", 4, None), ("long", 2, 1), ("all4", 4, 4)])
         npdu = rng.choice([1, 2, 2, 3, 3, 4, 5, 6, 8, 12])
         stream = b""
         if role == "s":
@@ -93,7 +94,7 @@ class C02(PropBase):
                 msgs.append(expected_message(m, a, mid))
             lib_stream = helper.data_to_send()
             expected = msgs
-            stream = b"".join(rfc4511.enc_msg(x, outer_form=4) for x in msgs) if own_enc else lib_stream
+            stream = _own(msgs, own_style) if own_enc else lib_stream
         else:
             helper = sansldap.LDAPServer()
             shadow = sansldap.LDAPClient()
@@ -140,7 +141,7 @@ class C02(PropBase):
                 msgs.append(expected_message(m, a, mid))
             expected = msgs
             lib_stream = helper.data_to_send()
-            stream = b"".join(rfc4511.enc_msg(x, outer_form=4) for x in msgs) if own_enc else lib_stream
+            stream = _own(msgs, own_style) if own_enc else lib_stream
         return {"op": "init", "role": role, "customs": customs, "prep": prep, "stream": stream.hex(),
                 "expected": [norm(x) for x in expected], "own_enc": own_enc,
                 "style": rng.choice(["mixed", "mixed", "byte", "header", "coalesce"]), "sweep_seed": rng.getrandbits(32),
@@ -421,6 +422,12 @@ class C02(PropBase):
 
     def simplify(self, head, body, fails):
         return body
+
+
+def _own(msgs, own_style):
+    _name, cf, pf = own_style
+    with ber.style(cf, pf):
+        return b"".join(rfc4511.enc_msg(x, outer_form=4) for x in msgs)
 
 
 def _probe(sess, role, mid):
